@@ -617,6 +617,8 @@ class Interp:
                 EXC_BASES[ci_.name] = list(ci_.base_exprs)
         self.evaluating = set()       # ids of module-level right-hand sides being evaluated (X = f(X))
         self.eq_depth = 0
+        self.class_patches = {}       # (class, name) -> what a class decorator bound under that name in the class
+        self.classes_ready = set()    # classes whose decorators have been applied in this interpreter
         self.func_attrs = {}          # (def node id, closure id, name) -> attribute stored on a function object
         self.sym_strings = {}         # placeholder python str -> (width, cls): symbolic text values
         self.num_widths = {}          # repr(Rat) -> printed width of that number under %d / %.1f / str()
@@ -1362,11 +1364,7 @@ class Interp:
         self.n_objects += 1
         o = Obj(name or '%s#%d' % (ci.name, self.n_objects), ci, closed=True)
         o.interp = self             # the interpreter the object lives in (rules read public attributes through it)
-        for k_ in ci.mro:
-            for d_ in k_.decorators:
-                if d_.split('(')[0].split('.')[-1] not in ('dataclass', 'total_ordering', 'final', 'runtime_checkable'):
-                    # a class decorator replaces the class by what it returns (methods wrapped, attributes added)
-                    raise Unsupported('class decorator @%s on %s' % (d_, k_.qual))
+        self.ensure_class(ci)       # class decorators of the package are applied (methods wrapped, names added)
         got = self.repo.find_method(ci, '__init__', missing_ok=True)
         def is_dc(k_):
             return any(d.split('(')[0].split('.')[-1] == 'dataclass' for d in k_.decorators) or \
@@ -1410,7 +1408,61 @@ class Interp:
             return Raised('TypeError')      # object() takes no arguments
         return o
 
+    CLASS_MARKERS = ('dataclass', 'total_ordering', 'final', 'runtime_checkable')
+
+    def ensure_class(self, ci):
+        """apply the class decorators of ci and of its bases (once per interpreter, bases first): a decorator defined in
+        the package is a function of the class; what it binds in the class (cls.name = f, setattr(cls, name, f)) is
+        kept in ``class_patches`` and found by every later attribute look-up"""
+        for k in reversed(ci.mro):
+            if k.qual in self.classes_ready:
+                continue
+            self.classes_ready.add(k.qual)
+            for d in reversed(k.node.decorator_list):
+                dn = ast.unparse(d.func if isinstance(d, ast.Call) else d).split('.')[-1]
+                if dn in self.CLASS_MARKERS:
+                    continue
+                fr = Frame(self, k.module, {}, None, None)
+                r = fr.apply(fr.ev(d), [k], {}, d)
+                if r is not k:
+                    raise Unsupported('class decorator @%s on %s returns something other than the class'
+                                      % (ast.unparse(d), k.qual))
+
+    def patched(self, ci, name):
+        """(class, value) when a class decorator bound ``name`` in a class of the MRO before any def of that name"""
+        if not self.class_patches and all(k.qual in self.classes_ready for k in ci.mro):
+            return None
+        self.ensure_class(ci)
+        for k in ci.mro:
+            if (k.qual, name) in self.class_patches:
+                return k, self.class_patches[(k.qual, name)]
+            if name in k.methods or name in k.class_attrs:
+                return None
+        return None
+
+    def bind_patched(self, k, v, obj):
+        if isinstance(v, FuncRef) and v.self_obj is None:
+            if any(ast.unparse(d) == 'staticmethod' for d in getattr(v.fn, 'decorator_list', ())):
+                return v
+            b = FuncRef(v.module, v.fn, obj, v.owner if v.owner is not None else k, v.closure, v.defaults,
+                        v.frame_self)
+            if v.closure is not None or isinstance(v.fn, ast.Lambda):
+                b.owner = k
+                b.bound_via_class = True
+            return b
+        return v
+
     def call_method(self, obj, mname, args, kwargs, after=None):
+        if obj.ci is not None and after is None and mname not in obj.opaque_methods:
+            p_ = self.patched(obj.ci, mname)
+            if p_ is not None:
+                fr_ = Frame(self, obj.ci.module, {}, None, None)
+                try:
+                    return fr_.apply(self.bind_patched(p_[0], p_[1], obj), args, kwargs, None)
+                except _RaisedExc as r_:
+                    if self.depth > 0:
+                        raise
+                    return r_.raised
         if mname in obj.opaque_methods:
             return obj.opaque_methods[mname](self, obj, args, kwargs)
         if obj.ci is None:
@@ -2749,6 +2801,12 @@ class Frame:
             raise Unsupported('subscript store on %r' % (base,), target, self.module.relpath)
         if isinstance(target, ast.Attribute):
             base = self.ev(target.value)
+            if isinstance(base, ClassInfo):
+                if base.qual not in I.classes_ready or target.attr.startswith('__'):
+                    raise Unsupported('store into the class %s outside a class decorator' % base.qual, target,
+                                      self.module.relpath)
+                I.class_patches[(base.qual, target.attr)] = v       # cls.name = value inside a class decorator
+                return
             if isinstance(base, FuncRef) and base.self_obj is None and target.attr not in (
                     '__code__', '__defaults__', '__kwdefaults__', '__globals__', '__closure__', '__call__'):
                 # functions have a writable __dict__ (__name__, __doc__, __wrapped__, own attributes): nothing in
@@ -2757,9 +2815,14 @@ class Frame:
                 return
             if isinstance(base, Obj):
                 if base.ci is not None:
-                    if I.repo.find_method(base.ci, '__setattr__', missing_ok=True):
-                        raise Unsupported('attribute store on an object whose class defines __setattr__', target,
-                                          self.module.relpath)
+                    if I.repo.find_method(base.ci, '__setattr__', missing_ok=True) and \
+                            not getattr(self, 'raw_store', False):
+                        # the class routes every attribute store through its own __setattr__ (which ends in
+                        # super().__setattr__ / object.__setattr__: the plain store below)
+                        r_ = I.call_method(base, '__setattr__', [target.attr, v], {})
+                        if isinstance(r_, Raised):
+                            raise _RaisedExc(r_)
+                        return
                     got = I.repo.find_method(base.ci, target.attr + '.setter', missing_ok=True)
                     if got:
                         I.call_function(got[0].module, got[1], [v], {}, self_obj=base, owner=got[0])
@@ -3356,6 +3419,9 @@ class Frame:
             return I.func_attrs[(id(base.fn), id(base.closure), n.attr)]       # an attribute stored on the function
         if isinstance(base, SuperV):
             ci_ = base.self_obj if isinstance(base.self_obj, ClassInfo) else base.self_obj.ci
+            if n.attr == '__setattr__' and isinstance(base.self_obj, Obj) and \
+                    not I.repo.find_method(ci_, n.attr, after=base.owner, missing_ok=True):
+                return self.plain_setattr(base.self_obj)        # object.__setattr__
             got = I.repo.find_method(ci_, n.attr, after=base.owner)
             return FuncRef(got[0].module, got[1], base.self_obj, got[0])
         if base is None:
@@ -3444,6 +3510,8 @@ class Frame:
             if r is None:
                 raise Unsupported('unknown attribute %s.%s' % (base.name, n.attr), n, self.module.relpath)
             return self.entity(r, n)
+        if isinstance(base, ClassInfo) and (base.qual, n.attr) in I.class_patches:
+            return I.class_patches[(base.qual, n.attr)]
         if isinstance(base, ClassInfo):
             got = I.repo.find_method(base, n.attr, missing_ok=True)
             if got:
@@ -3465,7 +3533,26 @@ class Frame:
             return code_object(I, base, n)
         if n.attr == '__name__' and isinstance(base, FuncRef) and hasattr(base.fn, 'name'):
             return base.fn.name
+        if n.attr == '__doc__' and isinstance(base, FuncRef):
+            return ast.get_docstring(base.fn, clean=False) if not isinstance(base.fn, ast.Lambda) else None
         raise Unsupported('attribute %s of %r' % (n.attr, base), n, self.module.relpath)
+
+    def plain_setattr(self, obj):
+        """object.__setattr__ bound to obj: the store Python makes when no __setattr__ of the class intervenes
+        (properties and data descriptors are still honoured)"""
+        fr0 = self
+
+        def f(I_, fr_, a, k_, n_):
+            if len(a) != 2 or k_ or not isinstance(a[0], str) or a[0] in I_.sym_strings:
+                raise Unsupported('object.__setattr__ with these arguments', n_)
+            tgt = ast.Attribute(value=ast.Name(id='\x00setattr_obj', ctx=ast.Load()), attr=a[0], ctx=ast.Store())
+            if n_ is not None:
+                ast.copy_location(tgt, n_)
+            sub = Frame(I_, fr0.module, Env(fr0.env, {'\x00setattr_obj': obj}), fr0.owner, fr0.self_obj)
+            sub.raw_store = True
+            sub.assign(tgt, a[1])
+            return None
+        return _stdlib.CallableV(f, 'object.__setattr__')
 
     def dict_view(self, obj, node=None):
         """obj.__dict__ / vars(obj): the live attribute table (a write through it is a write to the object)"""
@@ -3585,6 +3672,10 @@ class Frame:
             return self.dict_view(obj, node)
         if attr in obj.missing:
             raise _RaisedExc(Raised('AttributeError', node))
+        if obj.ci is not None and attr not in obj.attrs:
+            p_ = I.patched(obj.ci, attr)
+            if p_ is not None:
+                return I.bind_patched(p_[0], p_[1], obj)
         if obj.ci is not None and not attr.startswith('__'):
             # a property is a data descriptor: it is asked before the instance's own attributes
             got = I.repo.find_method(obj.ci, attr, missing_ok=True)
@@ -3804,6 +3895,9 @@ class Frame:
                 got = I.repo.find_method(self.self_obj, f.attr, after=self.owner)
                 return I.call_function(got[0].module, got[1], args, kwargs, self_obj=self.self_obj, owner=got[0],
                                        name='%s.%s' % (got[0].qual, f.attr))
+            if f.attr == '__setattr__' and isinstance(self.self_obj, Obj) and self.self_obj.ci is not None and \
+                    not I.repo.find_method(self.self_obj.ci, f.attr, after=self.owner, missing_ok=True):
+                return self.apply(self.plain_setattr(self.self_obj), args, kwargs, n)       # object.__setattr__
             return I.call_method(self.self_obj, f.attr, args, kwargs, after=self.owner)
         fv = self.ev(f)
         args, kwargs = self.call_args(n)
@@ -4166,6 +4260,24 @@ def builtin_call(I, fr, name, args, kwargs, n):
         if not isinstance(spec, str) or spec in I.sym_strings:
             raise Unsupported('format() with a symbolic format spec', n)
         return I.plain(I.format_piece(args[0], spec))          # format(v, spec) is '{:spec}'.format(v)
+    if name == 'setattr' and len(args) == 3 and not kwargs and isinstance(args[0], ClassInfo):
+        if not isinstance(args[1], str) or args[1] in I.sym_strings or args[0].qual not in I.classes_ready:
+            raise Unsupported('setattr on a class', n)
+        I.class_patches[(args[0].qual, args[1])] = args[2]
+        return None
+    if name == 'vars' and len(args) == 1 and isinstance(args[0], ClassInfo) and not kwargs:
+        # the class's own namespace: its defs (as plain functions) and what decorators bound so far
+        ns = DictV()
+        for nm_, fn_ in args[0].methods.items():
+            if '.' not in nm_:
+                ns.d[nm_] = FuncRef(args[0].module, fn_, None, args[0])
+        for (q_, nm_), v_ in I.class_patches.items():
+            if q_ == args[0].qual:
+                ns.d[nm_] = v_
+        for nm_ in args[0].class_attrs:
+            if nm_ not in ns.d:
+                raise Unsupported('vars() of a class with data attributes', n)
+        return ns
     if name == 'setattr' and len(args) == 3 and not kwargs and isinstance(args[0], Obj):
         if not isinstance(args[1], str) or args[1] in I.sym_strings:
             raise Unsupported('setattr with a symbolic attribute name', n)
